@@ -22,7 +22,7 @@ TRUSTED = [
     'the browser-like readers (scheme, CSS escapes/comments) are a specification chosen here, not a browser',
 ]
 ASSUMPTIONS = [
-    'event streams are well typed (QName tags, str attribute values, str TEXT); TEXT that is a Markup instance is trusted by construction',
+    'event streams are well typed (QName tags, str attribute values, str TEXT) and namespace prefixes in START_NS events are XML names (no parser yields anything else; a prefix with blanks would be written into the start tag by the XHTML serializer); TEXT that is a Markup instance is trusted by construction',
     'nesting and dropped-subtree guarantees are claimed for well-nested input streams (every parser produces those)',
     'strings are sequences of Unicode scalar values on the model side (lone surrogates only occur via &#xD800;-style references, which the repaired stripentities maps to U+FFFD)',
 ]
